@@ -332,6 +332,8 @@ impl<E: Effect> Executor<E> {
                 self.freed[index] = true;
                 self.free.push(index);
                 self.reclaimed += 1;
+                #[cfg(feature = "verif")]
+                crate::verif::log_freed(self.worker_id, index);
             }
         }
     }
@@ -1088,6 +1090,8 @@ impl<E: Effect> Executor<E> {
     /// Execute up to max_units instruction units for a single process.
     /// Returns (did_work, optional_action) where did_work indicates if any instructions were executed.
     pub fn step(&mut self, max_units: usize, current_time_ms: u64) -> (bool, Option<Action<E>>) {
+        #[cfg(feature = "verif")]
+        let max_units = crate::verif::slice_override().unwrap_or(max_units);
         // Reclaim slots that settled at count 0 since the last step. Doing it here (a quiescent
         // point — any Action returned by the previous step has been handled by the Environment,
         // and no Rust-local Value handles are live) is what makes deferred reclamation safe.
@@ -2892,6 +2896,65 @@ impl<E: Effect> Executor<E> {
 
         // Remap value indices
         remap_heap_indices(&value, &index_map)
+    }
+}
+
+/// Read-only views for the verification harness (cargo feature `verif`).
+#[cfg(feature = "verif")]
+impl<E: Effect> Executor<E> {
+    pub fn verif_heap_view(&self) -> crate::verif::HeapView {
+        crate::verif::HeapView {
+            refcounts: self.refcounts.clone(),
+            freed: self.freed.clone(),
+            free: self.free.clone(),
+            pending_free: self.pending_free.clone(),
+            constant_slots: self
+                .constant_binaries
+                .iter()
+                .flatten()
+                .filter_map(|b| match b {
+                    Binary::Heap(i) => Some(*i),
+                    _ => None,
+                })
+                .collect(),
+            slots: self.heap.len(),
+        }
+    }
+
+    pub fn verif_queue(&self) -> Vec<ProcessId> {
+        self.queue.iter().copied().collect()
+    }
+
+    pub fn verif_parked(&self) -> crate::verif::ParkedView {
+        let sorted = |set: &HashSet<ProcessId>| {
+            let mut v: Vec<ProcessId> = set.iter().copied().collect();
+            v.sort_unstable();
+            v
+        };
+        crate::verif::ParkedView {
+            spawning: sorted(&self.spawning),
+            selecting: sorted(&self.selecting),
+            effecting: sorted(&self.effecting),
+        }
+    }
+
+    pub fn verif_process_ids(&self) -> Vec<ProcessId> {
+        let mut v: Vec<ProcessId> = self.processes.keys().copied().collect();
+        v.sort_unstable();
+        v
+    }
+
+    /// Lengths of the program tables this executor holds:
+    /// (constants, functions, tuples, builtins, type_compatibility, canonical_tuples).
+    pub fn verif_program_lens(&self) -> (usize, usize, usize, usize, usize, usize) {
+        (
+            self.constants.len(),
+            self.functions.len(),
+            self.tuples.len(),
+            self.builtins.len(),
+            self.type_compatibility.len(),
+            self.canonical_tuples.len(),
+        )
     }
 }
 
